@@ -107,7 +107,8 @@ def bucketing(name, n, topsize, topbits=32, eps=1, tiers=Q, timeout=1800):
 def sdslidx(name, unit, ufunc, kt, n, eps=1, epsrec=1, tiers=Q, timeout=1800, mem_gb=14):
     d = dict(KT[kt]); d.update(N=n, EPS=eps, EPSREC=epsrec, UFUNC=ufunc, NO_EMPTY_RANGES=1, VERIF_VEC_CAP=n + 6)
     return dict(name=name, unit=unit, harness='h_bucketing.c', defs=d, narrow=0, roots=['@' + ufunc], timeout=timeout, tiers=tiers, mem_gb=mem_gb,
-                noop=['memory_monitor6record'], unreachable=['_Rb_tree', 'system_category', 'system_error', 'bad_alloc', 'hugepage'],
+                noop=['memory_monitor6record'], unreachable=['_Rb_tree', 'system_category', 'system_error', 'bad_alloc', 'hugepage', '_Prime_rehash', '_Hash_bytes', 'basic_ostream', 'basic_istream', 'ios_base', '_M_create', '_M_mutate'],
+                unreachable_def=['9serialize', '4loadER', 'structure_tree', '_Hashtable', 'basic_ostream', 'basic_istream'],
                 bounds='exactly %d sorted %s keys, every non-reserved query, Epsilon=%d, EpsilonRecursive=%d; sdsl (sd_vector, select supports, int_vector, memory_manager) is the real code on '
                        'malloc/realloc; memory_monitor::record stubbed, huge-page paths asserted unreachable, log2 modelled to 16 fractional bits' % (n, kt, eps, epsrec))
 
@@ -143,7 +144,7 @@ JOBS['C15'] += [dynstep('dynstep_inv_322', 2, 3, 2, 2)]
 JOBS['C11'] = [mapped('mapped_u8_n2', 'uint8_t', 2), mapped('mapped_i8_n2', 'int8_t', 2), mapped('mapped_u8_n3_dense', 'uint8_t', 3, ord_hi=3), mapped('mapped_i8_n3', 'int8_t', 3, tiers=T, timeout=3000)]
 
 JOBS['C09'] = [bucketing('bucket_n2_t3', 2, 3), bucketing('bucket_n2_t4', 2, 4), bucketing('bucket_n3_t3', 3, 3), bucketing('bucket_n3_t4_dyn', 3, 4, topbits=0, tiers=T, timeout=3000), bucketing('bucket_n4_t6', 4, 6, tiers=T, timeout=4000)]
-JOBS['C10'] = [sdslidx('ef_u16_n1', 'eliasfano.cpp', 'u_eliasfano', 'uint16_t', 1), sdslidx('ef_u16_n2', 'eliasfano.cpp', 'u_eliasfano', 'uint16_t', 2)]
+JOBS['C10'] = [sdslidx('ef_u16_n1', 'eliasfano.cpp', 'u_eliasfano', 'uint16_t', 1, mem_gb=45, timeout=3600), sdslidx('ef_u16_n2', 'eliasfano.cpp', 'u_eliasfano', 'uint16_t', 2, mem_gb=45, timeout=3600, tiers=T)]
 JOBS['C02'] = JOBS['C01'] + [j_ for j_ in JOBS['C03'] if j_['name'] == 'mkseg_n3_e1_c2']
 JOBS['C07'] = [e2e('e2e_u8_n3_e1_r1', 'uint8_t', 3, 1, 1), e2e('e2e_i8_n2_e1_r1', 'int8_t', 2, 1, 1), e2e('e2e_u8_n4_e1_r1', 'uint8_t', 4, 1, 1, tiers=T, timeout=3000)]
 JOBS['C16'] = [e2e('frame_u8_n2_e1_r1', 'uint8_t', 2, 1, 1, extra=dict(WITH_FRAME=1)), e2e('frame_u8_n3_e1_r0', 'uint8_t', 3, 1, 0, extra=dict(WITH_FRAME=1))]
@@ -152,7 +153,7 @@ JOBS['C20'] = [e2e('reject_u8_n%d' % n, 'uint8_t', n, 1, 1, extra=dict(ALLOW_SEN
 JOBS['C20'] += [pla('pla_reject_k3_e1', 3, epsfix=1, ymax=6, maximality=False, reject=True)]
 JOBS['C20'] += [dynrej('dynrej_base', 0), dynrej('dynrej_bulk', 1, 3), dynrej('dynrej_tomb', 2), dynrej('dynrej_range', 3)]
 JOBS['C18'] = [cpgm('cpgm_u32_n2', 'uint32_t', 'uint32', 2), cpgm('cpgm_i32_n2', 'int32_t', 'int32', 2), cpgm('cpgm_u64_n2_null', 'uint64_t', 'uint64', 2, sentinel=True),
-               cpgm('cpgm_i64_n3', 'int64_t', 'int64', 3, tiers=T, timeout=3000)]
+               cpgm('cpgm_i64_n3', 'int64_t', 'int64', 3, tiers=T, timeout=3000), cpgm('cpgm_u32_n2_eps4096', 'uint32_t', 'uint32', 2, epslo=1, ephi=4096, tiers=T, timeout=3000)]
 
 E2E_OUT = ['n >= 5 keys end to end (n = 5 ran out of memory at 14 GB)', 'Epsilon > 1 and EpsilonRecursive > 1', 'key types wider than 8 bits end to end (C18 covers 32/64-bit keys at n <= 3 through the C interface)',
            'floating-point keys, double slopes', 'real OpenMP execution of the chunks (the chunk loop is run sequentially through hook H1)',
